@@ -24,7 +24,10 @@ var c02Behaviours = []string{"good", "revoked", "unknown", "http500", "refused",
 	// post-dated revocation); a responder URL whose scheme is written in capitals (legal; the http client follows it)
 	"revoked-post-dated", "revoked-scheme-in-capitals",
 	// the responder named in the certificate has moved: it answers 307 / 308 and the authentic answer comes from the new address
-	"revoked-via-307", "revoked-via-308"}
+	"revoked-via-307", "revoked-via-308",
+	// a responder which takes 90 seconds (by the validator's clock) and then sends an error page: no answer, the next
+	// responder is asked - however long this one took
+	"slow-error-page"}
 
 type c02Case struct {
 	List     []int // behaviour index per responder position
@@ -221,6 +224,8 @@ func (k *c02Cast) run(c c02Case) (v0, v1, v2 Verdict, hits1, hits2 int) {
 				w.Net.Down(url)
 			case "html":
 				w.Net.Serve(url, "html", []byte("<html><body>It works!</body></html>"))
+			case "slow-error-page":
+				w.Net.Routes[url] = &world.Behaviour{Label: "slow-error-page", Delay: 90 * time.Second, Status: 504, Body: []byte("<html><body>504 gateway timeout</body></html>")}
 			case "forged-good":
 				// a well-formed "good" for this serial, signed by a certificate the CA issued WITHOUT OCSP-signing authorisation
 				ans.Status = xocsp.Good
